@@ -159,6 +159,8 @@ package dns
 // ASCII letters A-Z
 //@   ensures fq:    IsFqdnSpec(s) ==> len(ret0) == len(s) && (forall k in 0..len(s) :: ret0[k] == lower(s[k]))
 //@   ensures nonfq: !IsFqdnSpec(s) ==> len(ret0) == len(s) + 1 && ret0[len(s)] == '.' && (forall k in 0..len(s) :: ret0[k] == lower(s[k]))
+//@   loop 1 invariant scan: 0 <= i && i <= len(callres("Fqdn")) && (forall k in 0..i :: callres("Fqdn")[k] == lower(callres("Fqdn")[k]))
+//@   loop 2 invariant fold: i <= j && j <= len(b) && len(b) == len(callres("Fqdn")) && (forall k in 0..j :: b[k] == lower(callres("Fqdn")[k])) && (forall k in j..len(b) :: b[k] == callres("Fqdn")[k])
 //@   pure
 
 //@ func dnsutil.AddOrigin [C19]
